@@ -375,7 +375,10 @@ def model_cases(draw, tier):
             dcs.append(0)
     fill = [draw(st.integers(0, (1 << W) - 1)) for _ in range(m)]
     return {'n': n, 'cols': cols, 'dcs': dcs, 'fill': fill, 'incomplete': draw(st.integers(0, 3)) == 0,
-            'string_form': draw(st.booleans())}
+            'string_form': draw(st.booleans()),
+            # the table reaches the constructors as built, deep-copied or through pickle (the don't-care marks then are
+            # other objects of the same kind)
+            'transport': draw(st.sampled_from(['none', 'none', 'deepcopy', 'pickle']))}
 
 
 def check_models(case):
@@ -389,6 +392,15 @@ def check_models(case):
     m = len(cols)
     W = 1 << n
     table = [[DontCare if (dcs[i] >> j) & 1 else bool((cols[i] >> j) & 1) for j in range(W)] for i in range(m)]
+    transport = case.get('transport', 'none')
+    if transport != 'none':
+        import copy
+        import pickle
+
+        try:
+            table = copy.deepcopy(table) if transport == 'deepcopy' else pickle.loads(pickle.dumps(table))
+        except Exception:  # noqa  (marks that cannot be copied are sent as they are)
+            pass
     if case['string_form']:
         arg = [''.join('*' if v == DontCare and v is not True and v is not False else ('1' if v else '0') for v in row) for row in table]
     else:
@@ -471,7 +483,8 @@ def check_models(case):
             else:
                 raise Violation('model_incomplete_definition', f'{name}: incomplete definition accepted silently')
     return {'nt': bool(cells) and any(not d_constant(c, n) for c in cols),
-            'cls': {f'n={n}', 'dc:' + ('some' if cells else 'none'), 'string_form' if case['string_form'] else 'value_form'}}
+            'cls': {f'n={n}', 'dc:' + ('some' if cells else 'none'), 'string_form' if case['string_form'] else 'value_form'}
+            | ({'dont_care_marks_copied'} if (transport != 'none' and cells) else set())}
 
 
 @st.composite
